@@ -114,6 +114,18 @@ CHECKS = {
               "variables compared bit for bit with the model, schedule decisions with the model's resolve function."),
         note=TB_COMMON + "Multi-dimensional snapshot kernels are not transcribed (oracle only). Axioms of the float/double instance theorems: Flocq's use of the standard library's real numbers (ClassicalDedekindReals.sig_not_dec, sig_forall_dec, functional_extensionality_dep, Classical_Prop.classic). Built with -DHAVE_TIMECMPR.",
         technique="Coq proof (lock-step and per-step bound by induction over step sequences, generic in the kernels) + bit-exact model/implementation comparison + two-process differential"),
+    "C15": dict(
+        category="proof", design_ref="DESIGN.md §4 C15",
+        text=("Concurrent calls as threads of atomic blocks (the code between the library's SZ_VERIF_YIELD points) of writes and reads of the process globals; "
+              "a schedule is any list of thread ids. Proved without axioms, for any number of threads, programs and schedules: calls that agree on every "
+              "global they write and read a global only after writing it observe under every schedule exactly what they observe alone (invariant by induction "
+              "over the schedule, completion of every thread included). The property as stated (no agreement) is a refuted statement with a witness schedule, "
+              "replayed on the implementation: it is a listed finding. On every run the implementation executes 2..16 calls under explicit random schedules "
+              "(deterministic hand-off at the yield points) and under real concurrency; the parameter block of every concurrent stream is compared with the "
+              "model's prediction for that schedule, every reconstruction with the call made alone; a difference is a listed finding only where the model says "
+              "the call read another call's different value, otherwise a violation."),
+        note=TB_COMMON + "Granularity = blocks between the five hook points (guard SZ_VERIF): races inside a block are only explored by free-running cases. Which reads the reconstruction depends on is validated by the differential, not derived from the C source.",
+        technique="Coq proof (schedule-independence under agreement, invariant over arbitrary schedules; refutation witness) + deterministic schedule replay through guarded yield hooks + differential against the call made alone"),
     "C04": dict(
         category="proof", design_ref="DESIGN.md §4 C04",
         text=("Proved: every byte of the parameter block (shared by all stream kinds) is assigned for every bound mode the writer handles, and its "
